@@ -251,6 +251,41 @@ def directed_stray(chk, col, bindir, tier, release=False, tag=""):
     return info
 
 
+def explore_handshake(chk, col, bindir, tier, release=False, tag=""):
+    """Systematic exploration of the REAL code: depth-first search over every interleaving of owner and
+    thread(s) at {closure start, owner operation start, every access of the hand-shake flag} (the flag
+    goes through the AtomicBool shim of tiny_std::verif_thread: one yield point per access, whatever
+    operations an implementation uses).  Every schedule is one execution between its own baseline and
+    quiesce, judged at property level."""
+    scen = ["s1:dv:r;d1", "s1:vec:r;d1", "s1:u8:p;d1", "s1:u128:r;j1"]
+    if tier != "quick":
+        scen += ["s1:a64:p;j1", "s1:dv:r;s2:vec:r;d1;d2", "s1:vec:r;s2:u8:p;d2;j1"]
+    script = ["set watchdog=4000"] + ["explore ops=%s max=%d" % (o, 48 if tier == "quick" else 160) for o in scen]
+    r = T.run_probe(chk, bindir, "explore" + tag, script, strace=False, timeout=600)
+    r.release = release
+    o, b, info = col.add(r, "explore")
+    ends = [e for e in r.events if e["ev"] == "explore_end"]
+    chk.extra["handshake_exploration" + tag] = {"scenarios": len(scen), "executions": sum(e["executions"] for e in ends),
+                                               "complete": [bool(e["complete"]) for e in ends]}
+    col.flush("explore" + tag)
+
+
+def drop_race(chk, col, bindir, tier, release=False, tag=""):
+    """Free-running stress of the drop / finish race on all CPUs: per thread the owner waits until the
+    closure has started, spins a random few iterations and drops (or joins) the handle, so that the
+    handle operation falls around the thread's own hand-shake; nothing is logged per thread (the race
+    window must stay narrow), judged by the process-level rules at quiescence (live-block multiset back
+    at baseline, no bad free, no thread left)."""
+    n = 2500 if tier == "quick" else 20000
+    script = ["set logalloc=0 logpt=0 watchdog=6000", "baseline"]
+    for i, spin in enumerate((0, 40, 200, 1000)):
+        script += ["race n=%d seed=%d spin=%d drop=85" % (n // 4, chk.seed * 53 + i, spin), "quiesce"]
+    r = T.run_probe(chk, bindir, "drop-race" + tag, script, strace=False, timeout=600)
+    r.release = release
+    col.add(r, "free-big")
+    col.flush("race" + tag)
+
+
 WARM = 5
 
 
@@ -311,4 +346,33 @@ def faults(chk, col, bindir, tier, release=False, tag=""):
         inj = info.get("injected", [])
         if completed(r, info) and (len(inj) != 1 or inj[0]["call"] != "mmap" or inj[0]["pid"] != info["h"] or (", %d," % ssz) not in inj[0]["args"]):
             raise core.ToolError("mmap fault injection did not hit exactly the owner's stack mmap: %s" % inj)
+    # --- persistent failure: every clone / every mmap of the owner from the (WARM+1)-th spawn on
+    # fails (a limit that does not go away): spawn must still return Err - a spawn that retries for
+    # ever is a hang inside spawn (watchdog -> timeout event)
+    script = fault_script("u8", "join")
+    r = T.run_probe(chk, bindir, "fault-clone-persistent%s" % tag, script, strace=True,
+                    inject="clone:error=EAGAIN:when=%d+" % (WARM + 1), timeout=90)
+    r.release = release
+    o, b, info = col.add(r, "fault")
+    inj = info.get("injected", [])
+    if completed(r, info) and (not inj or any(x["call"] != "clone" or x["pid"] != info["h"] for x in inj)):
+        raise core.ToolError("persistent clone fault injection hit something else: %s" % inj[:3])
+    cal = T.run_probe(chk, bindir, "fault-mmap-cal2%s" % tag, script, strace=True, timeout=60)
+    o2, b2, info2 = T.normalise(cal)
+    if completed(cal, info2):
+        ssz = info2.get("stack_sz", T.STACK_SZ)
+        hm = [x for x in cal.strace if x["pid"] == info2["h"] and x["call"] == "mmap"]
+        stackm = [x for x in hm if (", %d," % ssz) in x["args"]]
+        mains = len([x for x in cal.strace if x["pid"] == info2["main"] and x["call"] == "mmap"])
+        if len(stackm) >= WARM + 1 and hm.index(stackm[WARM]) + 1 > mains:
+            k = hm.index(stackm[WARM]) + 1
+            r = T.run_probe(chk, bindir, "fault-mmap-persistent%s" % tag, script, strace=True,
+                            inject="mmap:error=ENOMEM:when=%d+" % k, timeout=90)
+            r.release = release
+            o, b, info = col.add(r, "fault")
+            inj = info.get("injected", [])
+            if completed(r, info) and (not inj or inj[0]["pid"] != info["h"] or (", %d," % ssz) not in inj[0]["args"]):
+                raise core.ToolError("persistent mmap fault injection did not start at the owner's stack mmap: %s" % inj[:3])
+    else:
+        col.add(cal, "fault")
     col.flush("fault" + tag)
